@@ -84,3 +84,44 @@ func HarnessC06_Markers() {
 		vReach("marker-unsupported")
 	}
 }
+
+// HarnessC06_LongStrings: strings and property names at the 8/16-bit length boundaries, both
+// directions against the reference codec.
+func HarnessC06_LongStrings() {
+	n := []int{255, 256, 257, 65535}[vChoice(4)]
+	b := vPattern(n, 97)
+	b[0], b[n/2], b[n-1] = vU8(), vU8(), vU8()
+	str := string(b)
+	var r *refVal
+	var a Amf0
+	if vChoice(2) == 0 {
+		r = &refVal{kind: 2, s: str}
+		a = NewString(str)
+	} else {
+		r = &refVal{kind: 3, keys: []string{str}, vals: []*refVal{{kind: 5}}}
+		o := NewObject()
+		o.Set(str, NewNull())
+		a = o
+	}
+	want := refEncode(r, false)
+	got, err := a.MarshalBinary()
+	vAssert(err == nil, "long string marshals")
+	if err == nil {
+		vAssert(len(got) == len(want), "long string: library encoding has the specification's length")
+		if len(got) == len(want) {
+			vAssert(vEqBytes(got, want), "long string: library encoding equals the specification encoding")
+		}
+	}
+	back, err := Discovery(want)
+	vAssert(err == nil, "long string: Discovery accepts the specification encoding")
+	if err != nil {
+		return
+	}
+	err = back.UnmarshalBinary(want)
+	vAssert(err == nil, "long string: library decodes the specification encoding")
+	if err == nil {
+		vAssert(matches(back, r, false), "long string: decoded value equals the encoded one")
+		vAssert(back.Size() == len(want), "long string: Size() equals the encoding's length")
+	}
+	vReach("longstrings")
+}
